@@ -12,7 +12,7 @@ def tables_module(tabname, modname='CoreTables'):
     tab = Table.load(tabname)
     doc = {'names': [{'id': n, 'iso': [ord(c) for c in m['iso']], 'rr': [ord(c) for c in m['rr']],
                       'jol': [ord(c) for c in m['jol']], 'udf': [ord(c) for c in m['udf']]}
-                     for n, m in sorted(tab.names.items())],
+                     for n, m in sorted(tab.names.items()) if not n.startswith('~')],
            'blobs': [{'id': b, 'len': tab.blob_len(b)} for b in sorted(tab.blobs)],
            'targets': sorted(tab.targets)}
     return replay.tables_module(doc).replace('MODULE TraceTables', 'MODULE ' + modname)
